@@ -2,6 +2,7 @@ From Coq Require Import List NArith Bool.
 From V.C10 Require Import Model.
 From V.Mgr Require Import DialShape DialShapeProofs Model Caps Ledger LedgerInv.
 From V.Tcp Require Model Proofs Theorems.
+From V.C05 Require TcpCompose.
 Import ListNotations.
 Open Scope N_scope.
 From V.C05 Require Import Properties.
@@ -272,3 +273,61 @@ Check (C05_tcp_outbound_ids_from_owner :
 Check (C05_tcp_caller_ok_needed :
   exists es, Tcp.Theorems.callers_ok Tcp.Model.init Tcp.Model.g0 es = false /\
              In [Tcp.Model.OMark (Tcp.Model.MNoHandle 0)] (snd (Tcp.Theorems.run Tcp.Model.init es))).
+Check (C05_sys_feasible :
+  forall L, (forall t, installed L t = true <-> t = TCP) ->
+  forall xs, TcpCompose.xfeasible L TcpCompose.sys0 xs ->
+  feasible L init g0 (TcpCompose.sys_trace L TcpCompose.sys0 xs) /\
+  (TcpCompose.s_m (TcpCompose.sys_run L TcpCompose.sys0 xs), TcpCompose.s_g (TcpCompose.sys_run L TcpCompose.sys0 xs)) =
+  lrun L init g0 (TcpCompose.sys_trace L TcpCompose.sys0 xs)).
+Check (C05_sys_step :
+  forall L, (forall t, installed L t = true <-> t = TCP) ->
+  forall st x, TcpCompose.Inv L st -> TcpCompose.xok L st x ->
+  feasible L (TcpCompose.s_m st) (TcpCompose.s_g st) (TcpCompose.sys_evs L st x) /\
+  TcpCompose.Inv L (TcpCompose.sys_step L st x)).
+Check (C05_sys_at_most_one_outcome :
+  forall L, (forall t, installed L t = true <-> t = TCP) ->
+  forall xs, TcpCompose.xfeasible L TcpCompose.sys0 xs ->
+  NoDup (terminals L init (TcpCompose.sys_trace L TcpCompose.sys0 xs))).
+Check (C05_sys_no_silence :
+  forall L, (forall t, installed L t = true <-> t = TCP) ->
+  forall xs, TcpCompose.xfeasible L TcpCompose.sys0 xs ->
+  let st := TcpCompose.sys_run L TcpCompose.sys0 xs in
+  quiescent (TcpCompose.s_m st) (TcpCompose.s_g st) ->
+  forall c p, lookup c (g_att (TcpCompose.s_g st)) = Some p ->
+    In c (g_done (TcpCompose.s_g st)) \/
+    (In c (g_super (TcpCompose.s_g st)) /\ In p (g_rep (TcpCompose.s_g st))) \/
+    In c (g_limrej (TcpCompose.s_g st))).
+Check (C05_sys_no_wedge :
+  forall L, (forall t, installed L t = true <-> t = TCP) ->
+  forall xs, TcpCompose.xfeasible L TcpCompose.sys0 xs ->
+  let st := TcpCompose.sys_run L TcpCompose.sys0 xs in
+  quiescent (TcpCompose.s_m st) (TcpCompose.s_g st) -> forall p, settled (state_of (TcpCompose.s_m st) p)).
+Check (C05_sys_quiescent :
+  forall L, (forall t, installed L t = true <-> t = TCP) ->
+  forall xs, TcpCompose.xfeasible L TcpCompose.sys0 xs ->
+  let st := TcpCompose.sys_run L TcpCompose.sys0 xs in
+  quiescent (TcpCompose.s_m st) (TcpCompose.s_g st) <->
+  Tcp.Model.g_open (TcpCompose.s_tg st) = [] /\ Tcp.Model.g_neg (TcpCompose.s_tg st) = [] /\
+  accepting (TcpCompose.s_m st) = []).
+Check (C05_sys_owed_is_pending :
+  forall L, (forall t, installed L t = true <-> t = TCP) ->
+  forall xs c, TcpCompose.xfeasible L TcpCompose.sys0 xs ->
+  let st := TcpCompose.sys_run L TcpCompose.sys0 xs in
+  owed (TcpCompose.s_g st) c ->
+  (exists f rem, Tcp.Model.lookup f (Tcp.Model.praw (TcpCompose.s_t st)) = Some c /\
+                 Tcp.Model.lookup f (Tcp.Model.attempts (TcpCompose.s_t st)) = Some rem /\
+                 ~ In f (Tcp.Model.aborted (TcpCompose.s_t st))) \/
+  (exists f k, Tcp.Model.lookup f (Tcp.Model.pconn (TcpCompose.s_t st)) = Some (c, k) /\ Tcp.Model.is_inb k = false)).
+Check (C05_sys_progress :
+  forall L, (forall t, installed L t = true <-> t = TCP) ->
+  forall xs c, TcpCompose.xfeasible L TcpCompose.sys0 xs ->
+  let st := TcpCompose.sys_run L TcpCompose.sys0 xs in
+  owed (TcpCompose.s_g st) c ->
+  exists n, Tcp.Model.polls n = true /\ TcpCompose.xfeasible L TcpCompose.sys0 (xs ++ [TcpCompose.XNet n]) /\
+            exists e, In e (TcpCompose.sys_evs L st (TcpCompose.XNet n)) /\ TcpCompose.answers c e).
+Check (C05_sys_no_stuck :
+  forall L, (forall t, installed L t = true <-> t = TCP) ->
+  forall xs x s, TcpCompose.xfeasible L TcpCompose.sys0 (xs ++ [x]) ->
+  forall e m g es2, TcpCompose.sys_evs L (TcpCompose.sys_run L TcpCompose.sys0 xs) x = e :: es2 ->
+  (m, g) = (TcpCompose.s_m (TcpCompose.sys_run L TcpCompose.sys0 xs), TcpCompose.s_g (TcpCompose.sys_run L TcpCompose.sys0 xs)) ->
+  ~ In (Stuck s) (snd (step L m e))).
